@@ -274,6 +274,28 @@ pub fn vex_extra(rng: &mut Rng) -> String {
     let k = *rng.pick(&KINDS);
     let n = 2 + rng.below(3) as usize;
     let m = 2 + rng.below(3) as usize;
+    if rng.chance(1, 5) {
+        // statement-level `%=` on a floating-point vector place: `l = metal::fmod(l, r)` since fixes 92d66eb + 35faaaa (the refusals
+        // — a right operand that may write, a target that is not a plain place — are tied by the streams C02.gen and C02.dup: a
+        // rejected module has no IR to send to the vector model)
+        let j = 1 + rng.below(n as u64) as usize;
+        let distinct = ["x", "y", "z", "w"][..n].to_vec();
+        let mut pick = distinct.clone();
+        let mut place = String::new();
+        for _ in 0..j {
+            let i = rng.below(pick.len() as u64) as usize;
+            place.push_str(pick.remove(i));
+        }
+        let st = match rng.below(6) {
+            0 => format!("v %= ({})s;", vt("float", n)),
+            1 => format!("v %= w.{} + ({})s;", swz(rng, n, n), vt("float", n)),
+            2 => format!("v.{} %= ({})s;", place, vt("float", j)),
+            3 => format!("v.{} %= w.{};", place, swz(rng, n, j)),
+            4 => format!("v %= -w.{};", swz(rng, n, n)),
+            _ => format!("v %= (b ? w : v) * ({})s;", vt("float", n)),
+        };
+        return format!("{0} f1(float s, {0} v, {0} w, bool b)\n{{\n    {1}\n    return v;\n}}\n", vt("float", n), st);
+    }
     let op = if k == "float" { *rng.pick(&["+", "-", "*", "/", "%"]) } else { *rng.pick(&["+", "-", "*", "%", "&", "|", "<<", ">>"]) };
     let rep = |len: usize| "x".repeat(len);
     // a literal next to a vector of a lower kind: typed in the concrete vector type the literal receives since fixes 40c6233
